@@ -190,8 +190,8 @@ def install(R):
                   ("dict", "is_dict(store)"),
               ]),
               "comp0": dict(idx="_i", ghost_init=["snap('comp')"], inv=[
-                  ("collected", "slen(_t1) == _i and is_seq(_t1) and forall(lambda i: implies(0 <= i and i < _i, "
-                                "sget(_t1, i) == at('comp', lookup(store, snoc(p, sget(last, i)), all_nan))))"),
+                  ("collected", "slen(_acc_comp0) == _i and is_seq(_acc_comp0) and forall(lambda i: implies(0 <= i and i < _i, "
+                                "sget(_acc_comp0, i) == at('comp', lookup(store, snoc(p, sget(last, i)), all_nan))))"),
                   ("others_kept", "forall(lambda v_q: implies(not (sinit(v_q) == p and v_q == snoc(p, slast(v_q)) and sin(last, slast(v_q)) and sidx(last, slast(v_q)) < _i), "
                                   "mhas(store, v_q) == at('comp', mhas(store, v_q)) and mat(store, v_q) == at('comp', mat(store, v_q))))"),
                   ("dict", "is_dict(store)"),
@@ -316,7 +316,7 @@ def install(R):
           requires=[("settings", "is_seq(settings)")],
           modifies=["ghost:calls"],
           loops={
-              "comp0": dict(inv=[("submitted", "SubmittedInOrder(settings, _t1, old(ncalls())) and slen(_t1) == _i and is_seq(_t1)"),
+              "comp0": dict(inv=[("submitted", "SubmittedInOrder(settings, _acc_comp0, old(ncalls())) and slen(_acc_comp0) == _i and is_seq(_acc_comp0)"),
                                  ("log", "LogPrefixKept(old(ncalls()))")]),
               "loop0": dict(inv=[("collected", "slen(results_linear) == _i and is_seq(results_linear) and "
                                                "forall(lambda t: implies(0 <= t and t < _i, sget(results_linear, t) == call_ret(old(ncalls()) + t)))"),
@@ -439,9 +439,48 @@ def install_core(R):
         return mk_bool(z3.And(g1["calls_n"].t == g0["calls_n"].t, g1["calls_kw"].t == g0["calls_kw"].t))
     S["calls_unchanged"] = calls_unchanged
 
-    R.add(CR + "nan_like_result", result="V", pure=True, assumed=True,
-          notes="caller-side summary: a pure function of its argument; the placeholder kinds are the subject of C02 "
-                "(bool/str -> None, dict/Dataset/DataArray -> full_like(nan), sequence -> tuple of nan arrays, other -> nan)")
+    R.pure_ext |= {"xarray.Dataset", "xarray.full_like", "numpy.broadcast_to", "numpy.asarray"}
+    R.no_raise_ext |= {"numpy.broadcast_to"}
+    R.add(CR + "infer_shape", result="V", pure=True, assumed=True,
+          notes="bounded stand-in only (recursion on len(x[0]) with try/except TypeError): nested list shapes up to depth 3 / width 3 "
+                "are enumerated on the real function by replay/C02.py")
+    R.add(CR + "nan_like_result", result="V", pure=True, props=["C02"],
+          loops={"comp0": dict(idx="_k", inv=[
+              ("elementwise", "is_seq(_acc_comp0) and slen(_acc_comp0) == _k and forall(lambda k: implies(0 <= k and k < _k, "
+                              "sget(_acc_comp0, k) == NanOfShape(sget(res, k))))")])},
+          ensures=[
+              ("none_for_bool_str", "implies((isinstance(res, bool) or isinstance(res, str)) and not isinstance(res, dict) "
+                                    "and not isinst(res, 'Dataset') and not isinst(res, 'DataArray'), result is None)"),
+              ("nan_per_element", "implies(not isinstance(res, bool) and not isinstance(res, str) and not isinstance(res, dict) "
+                                  "and not isinst(res, 'Dataset') and not isinst(res, 'DataArray') and isiterable(res), "
+                                  "is_seq(result) and slen(result) == slen(res) and "
+                                  "forall(lambda k: implies(0 <= k and k < slen(res), sget(result, k) == NanOfShape(sget(res, k)))))"),
+              ("nan_for_scalar", "implies(not isinstance(res, bool) and not isinstance(res, str) and not isinstance(res, dict) "
+                                 "and not isinst(res, 'Dataset') and not isinst(res, 'DataArray') and not isiterable(res), result == NumpyNan())"),
+              ("full_like_for_labelled", "implies(isinst(res, 'Dataset') or isinst(res, 'DataArray'), result == FullLikeNan(res))"),
+              ("full_like_for_dict", "implies(isinstance(res, dict), result == FullLikeNan(DatasetOf(res)))"),
+          ],
+          raises={"AnyError": dict()})
+
+    xx_ = z3.Const("x!", V)
+    fds = z3.Function("ext:xarray.Dataset/1", V, V)
+    R.axioms.append(("Dataset_ctor_is_dataset", z3.ForAll([xx_], z3.And(T.is_VObj(fds(xx_)), T.tag(fds(xx_)) == T.TAG["dataset"]), patterns=[fds(xx_)])))
+
+    def nan_of_shape(eng, fr, x):
+        """np.broadcast_to(np.nan, infer_shape(x))"""
+        sh = eng.ext_value("xyzpy/gen/combo_runner.py:infer_shape", [x], fr) if False else None
+        xv = eng.as_V(x)
+        f_inf = z3.Function("ext:xyzpy/gen/combo_runner.py:infer_shape/1", V, V)
+        f_b = z3.Function("ext:numpy.broadcast_to/2", V, V, V)
+        return mk_V(f_b(z3.Const("ext:numpy.nan", V), f_inf(xv)))
+    S["NanOfShape"] = nan_of_shape
+    S["NumpyNan"] = lambda eng, fr: mk_V(z3.Const("ext:numpy.nan", V))
+
+    def full_like_nan(eng, fr, x):
+        f = z3.Function("ext:xarray.full_like|dtype/3", V, V, V, V)
+        return mk_V(f(eng.as_V(x), z3.Const("ext:numpy.nan", V), z3.Const("ext:float", V)))
+    S["FullLikeNan"] = full_like_nan
+    S["DatasetOf"] = lambda eng, fr, x: mk_V(z3.Function("ext:xarray.Dataset/1", V, V)(eng.as_V(x)))
 
     GRID = [
         ("names", "combo_values == CVals(combos) and combo_args == CArgs(combos) and fn_args == combo_args "
@@ -486,9 +525,9 @@ def install_core(R):
                                  "sget(settings, g) == Kws(fn_args, sget(locs, g), constants)))"),
               ]),
               "comp3": dict(idx="_v", inv=[
-                  ("components", "is_seq(_t1) and slen(_t1) == _v and forall(lambda v: implies(0 <= v and v < _v, "
-                                 "(sget(_t1, v) == sget(transpose_(results_linear), v)) if flat else "
-                                 "Rep(combo_values, zipdict_(locs, sget(transpose_(results_linear), v)), None, 0, empty_seq(), sget(_t1, v))))"),
+                  ("components", "is_seq(_acc_comp3) and slen(_acc_comp3) == _v and forall(lambda v: implies(0 <= v and v < _v, "
+                                 "(sget(_acc_comp3, v) == sget(transpose_(results_linear), v)) if flat else "
+                                 "Rep(combo_values, zipdict_(locs, sget(transpose_(results_linear), v)), None, 0, empty_seq(), sget(_acc_comp3, v))))"),
               ]),
           },
           cuts={
@@ -533,4 +572,40 @@ def install_core(R):
     def scat_(eng, fr, a, b):
         return SV("V", T.scat(eng.seq_V(a, fr), eng.seq_V(b, fr)), meta={"seq": True})
     S["scat_"] = scat_
+    return R
+
+
+def install_cases(R):
+    """combo_runner_core, cases variant: so far the rejection of overlapping case/combo arguments before any call (C02);
+    the enumeration/union/placeholder part of the cases branch is covered by the bounded replay only."""
+    S = R.spec
+
+    def case_args(eng, fr, cases):
+        cv = eng.as_V(cases)
+        return SV("V", T.astuple(T.mkeys(T.getitem(T.astuple(cv), T.VInt(0)))), meta={"seq": True})
+    S["CaseArgs"] = case_args
+
+    def overlap(eng, fr, cases, combos):
+        x = z3.Const(fresh_name("x"), V)
+        ca = S["CaseArgs"](eng, fr, cases).t
+        co = S["CArgs"](eng, fr, combos).t
+        return mk_bool(z3.Exists([x], z3.And(T.sin(ca, x), T.sin(co, x))))
+    S["Overlap"] = overlap
+
+    R.prop_meta["C02"] = dict(
+        bounded_in_quick="the cases branch of combo_runner_core (enumeration cases x sub-grid, per-argument unions, placeholder filling) and the "
+                         "recursion of infer_shape: replay/C02.py runs the real code on random case sets over 1-3 arguments x 5 result kinds x "
+                         "shuffle on/off and enumerates nested list shapes up to depth 3 / width 3",
+        not_decided=["unbounded proof of the cases branch of combo_runner_core (loop invariants for case_coords unions not written yet)"],
+    )
+    R.add(CR + "combo_runner_core@overlap", result="V", props=["C02"], types={"verbosity": "int"},
+          fn_params={"fn": dict()},
+          requires=[("cases", "truthy(cases) and is_seq(cases) and is_dict(sget(cases, 0))"),
+                    ("combos", "is_seq(combos) and forall(lambda k: implies(0 <= k and k < slen(combos), is_seq(sget(combos, k)) and slen(sget(combos, k)) == 2))"),
+                    ("executor", "executor != 'ray'")],
+          modifies=["ghost:calls"],
+          raises={"ValueError": dict(when="Overlap(cases, combos)", iff=True, ensures=[("nothing_ran", "calls_unchanged()")]),
+                  "AnyError": dict(), "TypeError": dict()},
+          hooks={"stop_after_assign": "fn_args"},
+          notes="region contract: the prefix of the body up to `fn_args = ...`; only the ValueError obligations are stated")
     return R
